@@ -208,6 +208,7 @@ def run(ctx, rep):
     # ------------------------------------------------------------ R06.e id kinds
     rep.rule('R06.e', 'ids passed between catalogue functions have the kind of the parameter they are passed to', floor=300, analysis='A13')
     idkinds.check_calls(ctx, rep, 'R06.e', ['server::streaming::', 'server::channels::', 'server::binary::', 'server::http::'])
+    idkinds.check_map_keys(ctx, rep, 'R06.e', ['server::streaming::', 'server::channels::', 'server::binary::', 'server::http::'])
 
     # ------------------------------------------------------------ R06.f stale-index removal
     rep.rule('R06.f', 'index-based Vec::remove inside a loop over collected indexes runs in reverse order (no stale indexes)', floor=2, analysis='A7')
@@ -261,3 +262,34 @@ def run(ctx, rep):
         rep.ob('R06.h', CG + '::reassign_partitions', 'partitions_count = the new count', False, None, 'reassign_partitions no longer records the new partition count')
     from forms import check_aggregates
     check_aggregates(ctx, rep, 'R06.h', {CG + '::new': {CG: {'partitions_count': 'partitions_count', 'topic_id': 'topic_id', 'group_id': 'group_id'}}})
+
+    # ------------------------------------------------------------ R06.i no unguarded may-panic site on the catalogue command path
+    rep.rule('R06.i', 'no acknowledged command makes the server panic: every may-panic site (unwrap/expect/index/remove/explicit panic/division) in the catalogue operations is guarded by a recognised idiom or listed with the reason why no command sequence triggers it', floor=25, analysis='A7')
+    IDNZ = 'stream, topic and group ids are never 0 (0 in a request means "assign one"), so Identifier::numeric cannot fail'
+    NUM = 'inside the arm that established kind == Numeric'
+    CAT_ALLOW = {
+        SYS + '::delete_client': {'unwrap Identifier::numeric(::next(…).0)': IDNZ, 'unwrap Identifier::numeric(::next(…).1)': IDNZ, 'unwrap Identifier::numeric(::next(…).2)': IDNZ},
+        SYS + '::login_with_personal_access_token': {
+            'unwrap phi{AHashMap::get(::next(…).personal_access_tokens, PersonalAccessToken::hash_token(…)) | Option::None{}}': 'after the is_none() early return on the same variable (the guard tests the merged variable, the unwrap its phi form)'},
+        SYS + '::poll_messages': {'unwrap [T]::last($PolledMessages.messages)': 'after the is_empty() early return on the same vector'},
+        'server::streaming::clients::client_manager::ClientManager::delete_consumer_groups_for_stream': {
+            'vec_remove ::write(::next(…)).consumer_groups [::next(::into_iter(…))]': 'indexes collected from the same vector under the same write guard, visited in reverse (R06.f)'},
+        'server::streaming::clients::client_manager::ClientManager::delete_consumer_groups_for_topic': {
+            'vec_remove ::write(::next(…)).consumer_groups [::next(::into_iter(…))]': 'indexes collected from the same vector under the same write guard, visited in reverse (R06.f)'},
+        'server::streaming::clients::client_manager::ClientManager::leave_consumer_group': {
+            'vec_remove ::write(AHashMap::get(…)).consumer_groups [::next(::into_iter(…)).0]': 'index produced by enumerate() over the same vector under the same write guard; the loop breaks after the removal'},
+        'server::streaming::topics::consumer_group::ConsumerGroup::assign_partitions': {
+            'assert_rem0 (0 == Vec::len(Iterator::collect(…)))': 'after the members.is_empty() early return',
+            'unwrap [T]::get(Iterator::collect(…), (::next(…) % Vec::len(…)))': 'index is a value modulo the length of the same vector'},
+        'server::streaming::topics::topic::Topic::add_persisted_partitions': {'unwrap AHashMap::get(self.partitions, ::next(…))': 'ids returned by add_partitions, which inserted them under the same &mut self'},
+        'server::streaming::topics::topic::Topic::delete_persisted_partitions': {'unwrap AHashMap::remove(self.partitions, ::next(…))': 'ids n-count+1..=n with count clamped to n = partitions.len(); partitions are numbered 1..n without gaps (R17.f)'},
+        'server::streaming::topics::topic::Topic::get_consumer_group': {'unwrap Identifier::get_u32_value(identifier)': NUM},
+        'server::streaming::polling_consumer::PollingConsumer::resolve_consumer_id': {'unwrap Identifier::get_u32_value(identifier)': NUM},
+        'server::streaming::personal_access_tokens::personal_access_token::PersonalAccessToken::new': {'unwrap ::fill(SystemRandom::new(…), 0)': 'fails only when the operating system random source fails; not input dependent'},
+    }
+    NOT_REQUEST = re.compile(r'::(new|create|init|load_streams|load_version|load_users|create_root_user|clean_cache|empty|shutdown|persist_messages|get_snapshot)$')
+    CAT = re.compile(r'^server::streaming::(systems::system::System::|streams::stream::Stream::|topics::consumer_group::ConsumerGroup(Member)?::|clients::client_manager::ClientManager::|polling_consumer::PollingConsumer::|'
+                     r'personal_access_tokens::personal_access_token::PersonalAccessToken::|users::user::User::|topics::topic::Topic::(add_|delete_|create_consumer|get_consumer_group|get_consumer_groups|join_|leave_|purge|reassign|get_partition|has_partitions|get_partitions))')
+    fns = [f for f in sorted(ctx.facts.fns) if CAT.match(f) and not NOT_REQUEST.search(f) and '::tests' not in f and '::{' not in f and ctx.has(f)]
+    rep.ob('R06.i', '<catalogue>', 'functions enumerated', len(fns) >= 100, None, '%d catalogue functions scanned' % len(fns))
+    check_panics(ctx, rep, 'R06.i', fns, CAT_ALLOW, ignore_kinds=('assert_overflow:Add', 'assert_overflow:Mul', 'assert_overflow:Shl', 'assert_overflow:Sub'))
